@@ -215,6 +215,9 @@ int snoopy_configfile_parseValue_filter_chain (
     const char *confValString,
     snoopy_configuration_t* CFG
 ) {
+    if (SNOOPY_TRUE == CFG->filter_chain_malloced) {
+        free(CFG->filter_chain); // Release the value of a previous occurrence of this option
+    }
     CFG->filter_chain          = strdup(confValString);
     CFG->filter_chain_malloced = SNOOPY_TRUE;
 
@@ -248,6 +251,9 @@ int snoopy_configfile_parseValue_message_format (
     const char *confValString,
     snoopy_configuration_t* CFG
 ) {
+    if (SNOOPY_TRUE == CFG->message_format_malloced) {
+        free(CFG->message_format); // Release the value of a previous occurrence of this option
+    }
     CFG->message_format          = strdup(confValString);
     CFG->message_format_malloced = SNOOPY_TRUE;
 
@@ -285,6 +291,18 @@ int snoopy_configfile_parseValue_output (
     const char * outputName;
     const char * outputArg;
     int    outputArgFound = SNOOPY_FALSE;
+
+    // Release the values of a previous occurrence of this option
+    if (SNOOPY_TRUE == CFG->output_malloced) {
+        free(CFG->output);
+        CFG->output          = SNOOPY_OUTPUT_DEFAULT;
+        CFG->output_malloced = SNOOPY_FALSE;
+    }
+    if (SNOOPY_TRUE == CFG->output_arg_malloced) {
+        free(CFG->output_arg);
+        CFG->output_arg          = SNOOPY_OUTPUT_DEFAULT_ARG;
+        CFG->output_arg_malloced = SNOOPY_FALSE;
+    }
 
     // First clone the config value, as it gets freed by ini parsing library
     confVal = strdup(confValString);
@@ -420,6 +438,9 @@ int snoopy_configfile_parseValue_syslog_ident (
     const char *confValString,
     snoopy_configuration_t* CFG
 ) {
+    if (SNOOPY_TRUE == CFG->syslog_ident_format_malloced) {
+        free(CFG->syslog_ident_format); // Release the value of a previous occurrence of this option
+    }
     CFG->syslog_ident_format          = strdup(confValString);
     CFG->syslog_ident_format_malloced = SNOOPY_TRUE;
 
